@@ -49,7 +49,7 @@ FINDER_BOUNDS = {
     'find_data_search': '13 values of five types under two keys x 22 operators: DataValue::test vs the documented semantics; insertion of every value twice (dedup by exact value); find_data by key (also one that does not exist) / value / both vs a full scan; keys()/data() lookups at store level over two datasets with coinciding handle numbers against a scan',
     'find_annotate_failures': '13 failing annotate() calls (missing / unresolvable / out-of-range / nested targets, bad data references, duplicate ids) on a small store; observable state compared before and after',
     'find_include_cycle': '9 sets of files that @include each other or themselves (stores: pairs with and without a working directory, self-include, a cycle of three, a double include; stand-off resource files without text; dataset files), each loaded in a child process',
-    'find_load_untrusted': '48 malformed or hostile STAM JSON documents through AnnotationStore::from_json_str (no document sized to exhaust memory)',
+    'find_load_untrusted': 'STAM CSV: 23 dataset tables and about 530 annotation tables derived from a valid one by emptying or breaking one field (through the readers / a scratch store manifest); 48 malformed or hostile STAM JSON documents through AnnotationStore::from_json_str (no document sized to exhaust memory)',
     'find_index_walk': 'every range over a 9-character text, forward and backward, 11 known selections',
 }
 
